@@ -7,8 +7,9 @@ from .model import Model, spec_of
 from . import xmlout
 
 BATCHES = [1, 2, 3, 5, 8, 1000]
-ADD_ROUTES = ['xml', 'xml', 'xml', 'gz', 'xz', 'pkg', 'tar-file', 'tgz-pkg', 'txz-file', 'mem']
-ILI_ROUTES = ['xml', 'xml', 'gz', 'pkg']
+ADD_ROUTES = ['xml', 'xml', 'xml', 'gz', 'xz', 'pkg', 'tar-file', 'tgz-pkg', 'txz-file', 'mem',
+              'dl-url', 'dl-project']
+ILI_ROUTES = ['xml', 'xml', 'gz', 'pkg', 'dl-url']
 
 
 def add_op(rng, res, swarm):
@@ -139,6 +140,11 @@ def history(rng: random.Random, universe, n_ops, swarm, model: Model | None = No
             i = rng.choice(cands)
             inner = {k: v for k, v in ops[i].items() if k in ('op', 'res', 'spec')}
             ops[i] = {'op': 'external', 'do': inner}
+            # sometimes the other process does two things in a row (an upgrade script that
+            # removes one lexicon and adds another) while this one only looks on
+            if i + 1 in cands and rng.random() < 0.6:
+                inner = {k: v for k, v in ops[i + 1].items() if k in ('op', 'res', 'spec')}
+                ops[i + 1] = {'op': 'external', 'do': inner}
     return ops
 
 
